@@ -173,6 +173,8 @@ def version_items(spec):
     for a in spec['algs']:
         out.append(alg_id(a))
         for svn, vals in a['svs']:
+            if not vals:
+                continue  # a state vector without keys (values named at run time) carries no version of its own
             out.append(alg_id(a) + '.' + svn)
             out.extend('.'.join([alg_id(a), svn, v]) for v in vals)
     return out
